@@ -34,6 +34,8 @@ Has(e, f) == f \in DOMAIN e
 
 NewLines == {L \in 1..NRec : Rec[L].k \in {"newt", "newq", "newb"}}
 NewTLines == {L \in NewLines : Rec[L].k = "newt"}
+\* the tails of the "big" bit structures, flattened once (constant level)
+BigLines == {L \in 1..NRec : Rec[L].k = "newbig"}
 
 PosToInt(s) == IF s[1] = 1 THEN -1 ELSE IF SymSmall(s) THEN SymToInt(s) ELSE 1073741824
 RawPositions(e) == [t \in 1..Len(e.pos) |-> PosToInt(e.pos[t])]
@@ -641,6 +643,67 @@ SpaceStdEv ==
                 IN  Advance(Check(e, o, "space.reported.std." \o e.shape,
                                   e.rep >= 0 /\ Abs(e.rep - actual) <= tol, e.rep, {actual, tol}), objs)
 
+\* bit structures beyond 2^32 positions (C06, C07, C08): base zeros + tail
+BigLineOf(o) == o.seq[1]
+BigVal == [L \in BigLines |->
+             LET T == Flat(Rec[L].segs)
+             IN  [T |-> T, P1 |-> Positions(T, 1), P0 |-> Positions(T, 0)]]
+NewBig ==
+    /\ IsEv("newbig")
+    /\ LET e == Ev
+           tag == "BIG." \o e.kind \o ".new"
+       IN  IF ~BigOk(e.base) THEN ToolErr(e, "malformed base of a big bit structure") /\ Advance(ResOk(0, {}), objs)
+           ELSE IF e.out = 0 THEN Advance(ResOk(1, {tag}), Put(e.o, Obj("BIG", e.kind, "", 0, <<l>>, FALSE)))
+           ELSE IF e.out = NA THEN ToolErr(e, "constructor not available") /\ Advance(ResOk(0, {}), objs)
+           ELSE Advance(ResBad(Mis(e, NoObj, tag, 0, 0, e.out, {0}), {tag}), objs)
+
+QBig ==
+    /\ IsEv("qbig")
+    /\ LET e == Ev
+       IN  IF ~Live(e.o) \/ objs[e.o].fam # "BIG" THEN Advance(ResOk(0, {}), objs)
+           ELSE LET o == objs[e.o]
+                    d == Rec[BigLineOf(o)]
+                    base == d.base
+                    bv == BigVal[BigLineOf(o)]
+                    T == bv.T
+                    P1 == bv.P1
+                    P0 == bv.P0
+                    pre == "BIG." \o o.kind \o "."
+                    K == 1..Len(e.rel)
+                    relform == e.form = "rel"
+                    \* the harness must have passed base + rel (or rel itself)
+                    argok == \A j \in K : e.args[j] = (IF relform THEN BigAdd(base, e.rel[j]) ELSE SmallNum(e.rel[j]))
+                    cl(j) == LET r == e.rel[j]
+                             IN  IF e.m = "get" THEN BigGet(T, r)
+                                 ELSE IF e.m = "rank1" THEN BigRank1(T, P1, r)
+                                 ELSE IF e.m = "rank0" THEN BigRank0(base, T, P1, r)
+                                 ELSE IF e.m = "select1" THEN BigSelect1(base, P1, r)
+                                 ELSE IF relform THEN BigSelect0Rel(base, P0, r)
+                                 ELSE BigSelect0Abs(r)
+                    bad == {j \in K : e.out[j] \notin cl(j).exp}
+                    tags == {pre \o cl(j).tag : j \in K}
+                    First(tg) == CHOOSE j \in bad : cl(j).tag = tg /\ \A jj \in bad : cl(jj).tag = tg => j <= jj
+                    btags == {cl(j).tag : j \in bad}
+                IN  IF Len(e.out) # Len(e.rel) \/ ~argok
+                    THEN ToolErr(e, "big arguments not rendered as base + offset") /\ Advance(ResOk(0, {}), objs)
+                    ELSE Advance(Res(SX!SetToSeq({Mis(e, o, pre \o tg, 0, First(tg), e.out[First(tg)], cl(First(tg)).exp) : tg \in btags}),
+                                     Cardinality(bad), Len(e.rel), tags), objs)
+
+MetaBig ==
+    /\ IsEv("metabig")
+    /\ LET e == Ev
+       IN  IF ~Live(e.o) \/ objs[e.o].fam # "BIG" THEN Advance(ResOk(0, {}), objs)
+           ELSE LET o == objs[e.o]
+                    d == Rec[BigLineOf(o)]
+                    T == BigVal[BigLineOf(o)].T
+                    ones == Len(BigVal[BigLineOf(o)].P1)
+                    pre == "BIG." \o o.kind \o ".meta."
+                    F(f, exp) == IF e[f] = <<NA>> THEN ResOk(0, {})
+                                 ELSE IF e[f] = exp THEN ResOk(1, {pre \o f})
+                                 ELSE ResBad(Mis(e, o, pre \o f, 0, 0, e[f], {exp}), {pre \o f})
+                IN  Advance(Merge(<<F("len", BigAdd(d.base, Len(T))), F("ones", SmallNum(ones)),
+                                    F("zeros", BigAdd(d.base, Len(T) - ones)), F("zeros_trait", BigAdd(d.base, Len(T) - ones))>>), objs)
+
 \* word-level utilities (C17)
 UtilEv ==
     /\ IsEv("util")
@@ -681,7 +744,8 @@ XB ==
 Other ==
     /\ l <= NRec
     /\ Rec[l].k \notin {"reset", "newt", "newq", "newb", "meta", "qg", "relm", "relo", "uq", "mut",
-                        "conv", "drop", "eq", "ith", "thr", "pure", "crash", "xb", "space", "util", "spstd"}
+                        "conv", "drop", "eq", "ith", "thr", "pure", "crash", "xb", "space", "util", "spstd",
+                        "newbig", "qbig", "metabig"}
     /\ Advance(ResOk(0, {}), objs)
 
 Finish ==
@@ -693,7 +757,7 @@ Finish ==
 Init == /\ l = 1 /\ objs = << >> /\ nbad = 0 /\ ncell = 0 /\ cov = {} /\ done = FALSE
 
 Next == \/ Reset \/ NewObj \/ Meta \/ QGrid \/ RelM \/ RelO \/ Uq \/ Mut \/ Conv \/ Drop
-        \/ EqEv \/ Ith \/ Thr \/ Pure \/ Crash \/ XB \/ SpaceEv \/ SpaceStdEv \/ UtilEv \/ Other \/ Finish
+        \/ EqEv \/ Ith \/ Thr \/ Pure \/ Crash \/ XB \/ SpaceEv \/ SpaceStdEv \/ UtilEv \/ NewBig \/ QBig \/ MetaBig \/ Other \/ Finish
 
 Spec == Init /\ [][Next]_vars
 
